@@ -9,7 +9,7 @@ type was removed gets the type synthesised for its initializer (what a compiler 
 and every typed position must still be accepted.
 Tie: before/after snapshots of the real TypeErasure.transform() on generated programs; per
 pair the kernel proves  ErasedFrom before after  and
-only_codes typing_codes (check_program (infer:=true) ... after) = [].
+only_codes erasure_codes (check_program (infer:=true) ... after) = [].
 The type-dependency analysis that CHOOSES what to erase (1085 lines) is not modelled; its
 output is validated.  Erased return types and erased type arguments are not re-inferred by
 the checker (recorded types are used; calls with inferred type arguments are unchecked).
@@ -37,17 +37,23 @@ def run(tier, seed, replay=None):
     proof_ok = C.proof_part(rep, "IR/Properties_C03.v", ["Generated/Builtins.vo", "IR/Check.vo", "IR/DiffProofs.vo"],
                             ["IR", "Types", "Generated"])
     langs = {l: T.Lang(l) for l in T.LANGS}
-    nper = 8 if tier == "quick" else 300
+    nper = int(os.environ.get("VERIF_C03_N", "8")) if tier == "quick" else 300
     items = []
     crashes = []
     t0 = time.time()
+    import glob as globmod
+    corpus = sorted(globmod.glob(os.path.join(C.CORPUS, "C03", "*.pkl")))
+    work = [("kotlin" if os.path.basename(f).startswith("kotlin") else os.path.basename(f).split("_")[0], -1 - i, f)
+            for i, f in enumerate(corpus)]
     for lang in T.LANGS:
-        L = langs[lang]
         for s in range(nper):
-            sd = C.sub_seed(seed, "c03", lang, s) % (2 ** 31)
+            work.append((lang, C.sub_seed(seed, "c03", lang, s) % (2 ** 31), None))
+    for lang, sd, cfile in work:
+        L = langs[lang]
+        if True:
             progs.set_cfg(rows[0])
             try:
-                p = progs.generate(lang, sd)
+                p = pickle.load(open(cfile, "rb")) if cfile else progs.generate(lang, sd)
                 before = ir2coq.Ser(L, p)
                 n0 = before.prog()
                 te = TypeErasure(p, lang, None, {"timeout": 600})
@@ -89,7 +95,7 @@ def run(tier, seed, replay=None):
         text += "\nEval vm_compute in [%s].\n" % "; ".join("(if erased_from a%d b%d then 1 else 0, erased_count a%d b%d)" % (j, j, j, j)
                                                            for j in range(len(chunk)))
         for j, it in enumerate(chunk):
-            text += "\nEval vm_compute in (only_codes typing_codes (%s)).\n" % chk(it, j, "true")
+            text += "\nEval vm_compute in (only_codes erasure_codes (%s)).\n" % chk(it, j, "true")
         files.append(("c03_%d" % (k // per), text))
     C.clean_cases("c03")
     res = C.run_case_files(files, timeout=1800)
@@ -113,7 +119,7 @@ def run(tier, seed, replay=None):
         text = hdr + defs(chunk)
         for j, it in enumerate(chunk):
             text += ("\nTheorem e%d_structural : ErasedFrom a%d b%d.\nProof. apply erased_from_iff. vm_compute. reflexivity. Qed.\n"
-                     "Theorem e%d_typable : only_codes typing_codes (%s) = [].\nProof. vm_compute. reflexivity. Qed.\n"
+                     "Theorem e%d_typable : only_codes erasure_codes (%s) = [].\nProof. vm_compute. reflexivity. Qed.\n"
                      % (j, j, j, j, chk(it, j, "true")))
         cfiles.append(("c03c_%d" % (k // per), text, len(chunk)))
     res2 = C.run_case_files([(n_, t_) for n_, t_, _ in cfiles], timeout=1800)
@@ -150,7 +156,7 @@ def run(tier, seed, replay=None):
             path, code, detail = it["errs"][0]
             rep.violation("untypable", "%s seed %d: after erasure the position at node path %s (%s) is no longer accepted when removed "
                           "variable types are replaced by the inferred ones: %s" % (it["lang"], it["seed"], path,
-                                                                                   wholecheck.TYPING.get(code, code), detail[:300]),
+                                                                                   {**wholecheck.TYPING, 25: "erased return type of a function that calls itself", 26: "erased type arguments that nothing determines"}.get(code, code), detail[:300]),
                           dict(lang=it["lang"], seed=it["seed"], program_bin=binp, path=path, code=code, types=detail[:500],
                                shape="untypable"))
     if not proof_ok and not rep.violations:
